@@ -110,22 +110,23 @@ def uint64Max : Nat := 18446744073709551615
 /-- `finder.ctx.LastAnchor - 1` in uint64 arithmetic. -/
 def predU64 (n : Nat) : Nat := if n = 0 then uint64Max else n - 1
 
+/-- `Finder.fullscan`: binary search over `0 .. LastAnchor-1`. -/
+def fullscan (probe : Nat → Probe) (lastAnchor : Nat) : FinderOut :=
+  match binarySearch probe 0 (predU64 lastAnchor) none with
+  | .ok (some a) => .ancestor a
+  | .ok none => .noAncestor
+  | .localErr => .localErr
+  | .remoteErr => .remoteErr
+
 /-- The body of `Finder.start`: lightscan, then fullscan when lightscan found nothing.
 `replies` are the `GetSyncAncestorRsp` heights that reach the finder before its timer fires. -/
 def finder (fullOnly : Bool) (best target : Nat) (replies : List (Option Nat)) (probe : Nat → Probe) : FinderOut :=
-  let full (lastAnchor : Nat) : FinderOut :=
-    match binarySearch probe 0 (predU64 lastAnchor) none with
-    | .ok (some a) => .ancestor a
-    | .ok none => .noAncestor
-    | .localErr => .localErr
-    | .remoteErr => .remoteErr
-  if fullOnly then full (best + 1)
+  if fullOnly then fullscan probe (best + 1)
   else
-    let la := lastAnchorOf best
-    match replies.find? (lightAccept la) with
+    match replies.find? (lightAccept (lastAnchorOf best)) with
     | none => .timeout
     | some (some n) => if target ≤ n then .alreadyDone else .ancestor n
-    | some none => full la
+    | some none => fullscan probe (lastAnchorOf best)
 
 /-! ## HashFetcher -/
 
@@ -425,6 +426,9 @@ def chunkRsp (s : St) (peer : Nat) (err : Bool) (blocks : List Blk) : Except Err
       | .error e => .error e
       | .ok s => .ok (s, [])
 
+/-- `stopSyncer(nil)` when the block just connected is the target. -/
+def stopOuts (s : St) (cb : Blk) : List Out := if cb.no = s.target then [.stop none] else []
+
 /-- `AddBlockResponse`. -/
 def addRsp (s : St) (no hash : Nat) (err nilHash : Bool) : Except Err (St × List Out) :=
   if err then .error .rspErr
@@ -435,10 +439,9 @@ def addRsp (s : St) (no hash : Nat) (err nilHash : Bool) : Except Err (St × Lis
     | some cb =>
       if cb.no ≠ no ∨ cb.hash ≠ hash then .error .invalidAdd
       else
-        let stopOut : List Out := if cb.no = s.target then [.stop none] else []
         match connectNext { s with prev := cb, curBlock := none } with
         | .error e => .error e
-        | .ok (s, outs) => .ok (s, stopOut ++ outs)
+        | .ok (s', outs) => .ok (s', stopOuts s cb ++ outs)
 
 /-- Events: what the environment (hash fetcher, peers through P2P, chain service, the ticker) does. -/
 inductive Ev
@@ -524,6 +527,14 @@ def Svc.syncStart (v : Svc) (target best : Nat) : Svc :=
 /-- `Reset` (through an accepted `SyncStop`, a failed `FinderResult`, or a recovered panic). -/
 def Svc.reset (v : Svc) : Svc := if v.running then { v with running := false, target := 0 } else v
 
+/-- A `SyncStop` (or a failed `FinderResult`) carrying sequence `seq`: resets the session if it
+passes `Receive`'s garbage filter and `verifySeq`, otherwise changes nothing. -/
+def Svc.stop (v : Svc) (seq : Nat) : Svc :=
+  if accepted v.seq v.running .syncStop seq then v.reset else v
+
+def Svc.finderFail (v : Svc) (seq : Nat) : Svc :=
+  if accepted v.seq v.running .finderResult seq then v.reset else v
+
 /-! ## P2P BlocksChunkReceiver -/
 
 inductive RStatus | waiting | canceled | finished
@@ -579,5 +590,13 @@ def Recv.receive (r : Recv) (big : Blk → Bool) (p : Part) : Recv × RecvOut :=
         if p.hasNext then ({ r with got }, .nothing)
         else if got.length < r.want.length then ({ r with got, status := .finished }, .rspErr .tooFew)
         else ({ r with got, status := .finished }, .rsp got)
+
+/-- A receiver fed a sequence of parts; the outputs in order. -/
+def Recv.feed (big : Blk → Bool) : Recv → List Part → Recv × List RecvOut
+  | r, [] => (r, [])
+  | r, p :: ps =>
+    let (r1, o) := r.receive big p
+    let (r2, os) := Recv.feed big r1 ps
+    (r2, o :: os)
 
 end Aergo.Sync
